@@ -134,7 +134,7 @@ def run(ctx):
     ctx.count("registered/units", len(units) if ctx.shard == 0 else 0)
 
     # ---- compound / prefixed units and quantities ---------------------------------------------------
-    n = ctx.scale(600, 60000)
+    n = ctx.scale(1500, 60000)
     cross = []
     for i in range(n):
         factors = pools.random_factors(rng, max_factors=3, max_exp=3, hostile=0.15, prefix_prob=0.5)
